@@ -439,7 +439,7 @@ def near_point(p):
     A = (bman << S) - (B(1) if d < 0 else B(0))
     R = ref_round(A, TRUE, prec, rnd, neg, bbc + S - 1, bbc + S)
 
-    exact_rounding = bbc <= prec and base != 'x-x2/2'        # base representable: the perturbation shortcut must then give the correctly rounded value;
+    exact_rounding = p.get('strict', False) and bbc <= prec and base != 'x-x2/2'        # base representable: the perturbation shortcut must then give the correctly rounded value;
                                         # for longer arguments only the SIDE (what enclosure needs) and 4 ulp closeness are demanded:
                                         # mpf_perturb deliberately over-steps there
 
@@ -483,13 +483,13 @@ def near_point_concrete(p, m):
     # exact value = b * (1 + d * tiny) in magnitude: any tiny below 2**(-prec-20) gives the same rounding
     tiny = abs(b) * Fraction(1, 1 << (prec + 40))
     exact = b + (tiny if (d > 0) == (b > 0) else -tiny)
-    if (bc <= prec or base in ('one', '1+x')) and base != 'x-x2/2':
+    if p.get('strict', False) and (bc <= prec or base in ('one', '1+x')) and base != 'x-x2/2':
         ok, det = O.check_rounded(r, exact, prec, rnd)
     else:
         got = O.frac_of(r)
         side = {'f': got <= exact, 'c': got >= exact, 'd': abs(got) <= abs(exact), 'u': abs(got) >= abs(exact)}[rnd]
         ulp = Fraction(2) ** (r[2] + r[3] - prec)
-        ulp = Fraction(2) ** (bt[2] + bc - prec)
+        ulp = Fraction(2) ** (bt[2] + bc - prec) if base not in ('one', '1+x') else Fraction(2) ** (1 - prec)
         ok = O.canonical_concrete(tuple(r), prec) and side and abs(got - exact) <= 4 * ulp
         det = 'got %s, which is %s' % (got, 'on the wrong side of the exact value' if not side else 'more than 4 ulp away / not canonical')
     return ok, '%s at %r (prec %d, rounding %s): the exact value is %s %s an infinitesimal; %s' % (
@@ -556,8 +556,8 @@ def wrap_kw(p):
         ps = parts(val, st)
         if ps is None:
             return False
-        asked = all(s_[1] == want_prec and s_[2] == want_rnd for s_ in seen) and bool(seen)
-        return [z3.BoolVal(asked)] + [canonical(t, want_prec) for t in ps]
+        # (only the result is judged: a wrapper may legitimately ask its kernel for more bits and round afterwards)
+        return [z3.BoolVal(bool(seen))] + [z3.Or(is_tuple(t, FZERO), canonical(t, want_prec)) for t in ps]
     return finish(ob, ob.prove(outs, good))
 
 
